@@ -345,7 +345,7 @@ func targets(f *dbFiles) []target {
 // enumerate lists the damages tried on one target. quick: every structure boundary -2..+2 as a
 // truncation offset and as a changed byte (one bit flip and zeroing), plus random offsets;
 // thorough: every offset of the used part of the file.
-func enumerate(r *gen.Rand, t target, thorough bool, nrand int) []damage {
+func enumerate(r *gen.Rand, t target, thorough, every bool, nrand int) []damage {
 	bs, end := t.boundaries()
 	size := t.size()
 	seen := map[string]bool{}
@@ -367,11 +367,16 @@ func enumerate(r *gen.Rand, t target, thorough bool, nrand int) []damage {
 		out = append(out, d)
 	}
 	old := t.role == "wal-old" || t.role == "chunk-old"
-	if thorough && !old {
+	if every {
+		// every offset of the used part of the file: a cut, and a changed byte (a bit flip and
+		// zeroing in turn)
 		for o := int64(0); o <= end+30 && o < size; o++ {
 			add(damage{Kind: kTrunc, Off: o, Why: "every"})
-			add(damage{Kind: kFlip, Off: o, Val: 1 << uint(r.Intn(8)), Why: "every"})
-			add(damage{Kind: kZero, Off: o, Why: "every"})
+			if o%2 == 0 {
+				add(damage{Kind: kFlip, Off: o, Val: 1 << uint(r.Intn(8)), Why: "every"})
+			} else {
+				add(damage{Kind: kZero, Off: o, Why: "every"})
+			}
 		}
 	}
 	sort.Slice(bs, func(i, j int) bool { return bs[i] < bs[j] })
@@ -407,8 +412,8 @@ func enumerate(r *gen.Rand, t target, thorough bool, nrand int) []damage {
 		add(damage{Kind: kFlip, Off: end + 1 + int64(r.Intn(200)), Val: 1 << uint(r.Intn(8)), Why: "padding"})
 		add(damage{Kind: kTrunc, Off: end + 1 + int64(r.Intn(200)), Why: "padding"})
 	}
-	if !thorough {
-		// quick tier: the fixed experiments above that always run, and a random sample of the rest
+	if !every {
+		// the fixed experiments above that always run, and a random sample of the boundary ones
 		var must, rest []damage
 		for _, d := range out {
 			if d.Why == "boundary" {
